@@ -5,6 +5,9 @@ C10 — property theorems (statements + proofs + non-vacuity examples only).
                                      primitive bound to lane `b` of every operand: any arity ≥ 2, any
                                      placement of batch dims, unmapped operands of any rank, scalars, any
                                      rank (tensors are functions from index lists)
+* `broadcast_batcher_shape`          the result SHAPE of the batcher: the batch size inserted at the reported
+                                     out dim into the numpy broadcast of the per-example shapes — all ranks,
+                                     all arities, both code paths, same hypotheses
 * `broadcast_batcher_lower_rank_refuted`  without the rank hypothesis the statement is FALSE: a mapped
                                      operand of lower (non-zero) per-example rank gets trailing instead
                                      of leading singleton axes
@@ -23,6 +26,7 @@ C10 — property theorems (statements + proofs + non-vacuity examples only).
   (the live allow/block lists are tabulated into `Gen/C10.lean`; obligations in `GenProps/C10.lean`)
 -/
 import J2O.Lemmas.C10
+import J2O.Lemmas.C10Shape
 set_option linter.unusedSimpArgs false
 set_option linter.unusedVariables false
 set_option linter.unreachableTactic false
@@ -52,6 +56,21 @@ theorem broadcast_batcher_correct {α : Type} (f : List α → α) (args : List 
       (bindPointwise f (args.map fun p => lane p.1 p.2 b)).get idx :=
   broadcast_batcher_correct_aux f args B b hb hwf hR out od hrun idx hidx
 
+/-- **Result shape of `broadcast_batcher_compat`.**  Under the hypotheses of
+    `broadcast_batcher_correct` (batch dims in range with common size `B`; every mapped operand of full
+    rank or a per-example scalar), the tensor the batcher returns has the shape obtained by inserting
+    `B` at the reported out dim into the numpy broadcast of the per-example operand shapes (the
+    shapes of the lanes) — for every arity, every rank, every placement of batch dims, scalars and
+    lower-rank unmapped operands, on both code paths.  Together with `broadcast_batcher_correct`
+    (values at every index) this determines the result completely. -/
+theorem broadcast_batcher_shape {α : Type} (f : List α → α) (args : List (Tensor α × Option Nat))
+    (B b : Nat)
+    (hwf : ∀ p ∈ args, ∀ k, p.2 = some k → k < p.1.rank ∧ p.1.shape.getD k 1 = B)
+    (hR : ∀ p ∈ args, ∀ k, p.2 = some k → p.1.rank = ndimOf args ∨ p.1.rank = 1)
+    (out : Tensor α) (od : Nat) (hrun : broadcastBatcher f args = some (out, od)) :
+    out.shape = insertAt od B (bshape (args.map fun p => (lane p.1 p.2 b).shape)) :=
+  broadcast_batcher_shape_aux f args B b hwf hR out od hrun
+
 section Examples
 /-- a tensor whose element at `idx` encodes `idx` (base 10) plus an offset -/
 def enc (shape : List Nat) (off : Nat) : Tensor Nat := ⟨shape, fun idx => idx.foldl (fun a i => 10 * a + i) off⟩
@@ -66,6 +85,17 @@ example : ∃ out od, broadcastBatcher sub2 [(enc [2, 4, 3] 100, some 0), (enc [
 -- batch dims that agree (axis 1 on both): the direct path, result batched at axis 1
 example : (broadcastBatcher sub2 [(enc [4, 2, 3] 0, some 1), (enc [4, 2, 3] 5, some 1)]).map (·.2) = some 1 := by
   decide
+
+-- non-vacuity of `broadcast_batcher_shape`: x:(2,4,1) mapped at 0, y:(3,) unmapped, z scalar →
+-- (2,4,3) = 2 inserted at 0 into broadcast((4,1),(3,),()); and the direct path with out dim 1
+example : ∃ out od, broadcastBatcher sub2 [(enc [2, 4, 1] 0, some 0), (enc [3] 7, none), (enc [] 1, none)] = some (out, od) ∧
+    out.shape = [2, 4, 3] ∧
+    insertAt od 2 (bshape ([(enc [2, 4, 1] 0, some 0), (enc [3] 7, none), (enc [] 1, none)].map
+      fun p => (lane p.1 p.2 0).shape)) = [2, 4, 3] :=
+  ⟨_, _, rfl, by decide, by decide⟩
+example : ∃ out od, broadcastBatcher sub2 [(enc [4, 2, 3] 0, some 1), (enc [4, 2, 3] 5, some 1)] = some (out, od) ∧
+    od = 1 ∧ out.shape = insertAt od 2 (bshape [[4, 3], [4, 3]]) :=
+  ⟨_, _, rfl, by decide, by decide⟩
 
 /-- The rank hypothesis `hR` cannot be dropped: `x` of per-example shape `(3,)` (mapped, batch
     size 2) combined with an unmapped `y:(3,3)`.  JAX's lane 1 at index `[0,2]` is
